@@ -22,6 +22,7 @@ OUTSIDE = ['more items', 'item sizes >= 2^20 in the wide regime (count * size th
 ASSUMPTIONS = ['items are values of a harness type whose ItemSize::size returns its size field',
                'rand modelled as every stream; determinism is checked as absence of draws from unseeded generators']
 KNOWN_MATCHERS = {}
+VALIDATION_ALLOW_FORKS = True
 LT = ['BatchSize', 'PaddedItemSize']
 EXTREMES = [0, 3, 1 << 32, 1 << 63, (1 << 64) - 1]
 
